@@ -98,8 +98,8 @@ func VerifResize() {
 	}
 	// optionally an I/O failure while the limit is updated (the optional second,
 	// page-releasing transaction of a shrink is allowed to fail)
-	if fk := verifChoose(3); fk > 0 {
-		kind := []int{faultNone, faultWrite, faultSync}[fk]
+	if fk := verifChoose(6); fk > 0 {
+		kind := []int{faultNone, faultWrite, faultSync, faultTruncate, faultMMap, faultSize}[fk]
 		disk2.faultKind, disk2.faultOrd, disk2.faultBurst = kind, verifChoose(verifParam("resizefaults", 3)), 1
 		verifLogU64("fault kind during the resize", uint64(kind))
 		verifLogU64("fault ordinal", uint64(disk2.faultOrd))
